@@ -140,7 +140,7 @@ func verifIpWarm(ctx context.Context, acc AccessorStreamer, row int) {
 // the committed share and a proof the real verifier accepts against the
 // committed row root - and it is the very proof the direct producer builds.
 //
-//verif:opts nopanic nodeadlock noreplay preempt=0 threads=40 maxwall=400 cover=cold,warm-half,warm-stream,second-sample
+//verif:opts nopanic nodeadlock noreplay preempt=0 threads=40 maxwall=600 maxwall_thorough=2400 cover=cold,warm-half,warm-stream,second-sample
 func VerifH_C05_CachedSampleProofsVerify() {
 	shwap.VerifModelReset()
 	const k = 2
@@ -181,7 +181,7 @@ func VerifH_C05_CachedSampleProofsVerify() {
 // absence proof that verifies; for a namespace outside the row's range the
 // documented error.
 //
-//verif:opts nopanic nodeadlock noreplay preempt=0 threads=40 maxwall=400 cover=present,absent-inside,outside,cold,warm-half,warm-stream
+//verif:opts nopanic nodeadlock noreplay preempt=0 threads=40 maxwall=600 maxwall_thorough=2400 cover=present,absent-inside,outside,cold,warm-half,warm-stream
 func VerifH_C05_CachedRowNamespaceDataVerifies() {
 	shwap.VerifModelReset()
 	const k = 2
